@@ -21,6 +21,7 @@ import (
 	"github.com/hydraide/hydraide/app/name"
 	"github.com/hydraide/hydraide/app/server/observer"
 	"github.com/hydraide/hydraide/app/server/telemetry"
+	"github.com/hydraide/hydraide/app/verifhook"
 	hydrapb "github.com/hydraide/hydraide/sdk/go/hydraidego/v3/hydraidepbgo"
 	"google.golang.org/grpc/codes"
 	"google.golang.org/grpc/status"
@@ -260,6 +261,7 @@ func (g Gateway) Set(ctx context.Context, in *hydrapb.SetRequest) (*hydrapb.SetR
 			}
 
 			// begin the vigil, to prevent the close of the swamp
+			verifhook.Point("gateway.set.summoned", verifhook.ID(swampInterface))
 			swampInterface.BeginVigil()
 			defer swampInterface.CeaseVigil()
 
